@@ -71,6 +71,8 @@ def _changes(rng, ch):
             out[k] = [{'source_name': U.pick_string(rng), 'external_id': 'X-%d' % rng.randrange(100)}]
         else:
             out[k] = C._copy(base)
+    if rng.random() < 0.04:
+        out['revoked'] = True
     if rng.random() < 0.25:
         out['x_custom_%d' % rng.randrange(3)] = rng.choice([U.pick_string(rng), rng.randrange(100), ['a', 'b'], {'k': 'v'}, None, None])
     return out or {'labels': ['z']}
@@ -147,7 +149,7 @@ class C05(Profile):
                 ver=ver, form=form, type=typ, id_n=index * 8 + c, mod_us=mod_us, created_us=created_us,
                 rich=[k for k in rich if rng.random() < 0.5], common=[k for k in common if rng.random() < 0.4],
                 sco_v4=rng.random() < 0.3, no_modified=(form.startswith('dict') and rng.random() < 0.15),
-                custom=rng.random() < 0.2,
+                custom=rng.random() < 0.2, respell=rng.random() < 0.3,
             ))
         st = {'abs': chains[0]['mod_us'] + rng.choice([-5, 0, 3, 1000]), 'n': 0}
         ops = []
@@ -173,7 +175,7 @@ class C05(Profile):
                 op['marking'] = rng.sample(C.MARKING_IDS, rng.randrange(1, 3))
             elif kind == 'newver_T':
                 op['T_rel'] = rng.choice(T_RELS)
-                op['T_form'] = rng.choice(['str3', 'str6', 'strmin', 'datetime'])
+                op['T_form'] = rng.choice(['str3', 'str6', 'strmin', 'datetime', 'datetime_offset'])
                 if rng.random() < 0.3:
                     op['changes'] = _changes(rng, ch)
             elif kind == 'illegal':
@@ -224,6 +226,11 @@ class C05(Profile):
             d['id'] = C.mkid('x-unreg-thing', ch['id_n'])
         if ch.get('no_modified'):
             del d['modified']
+        elif ch.get('respell') and ver == '2.1':
+            # dict heads may spell the same instant with more digits than needed
+            d['modified'] = tsparse.fmt(tsparse.us_of(d['modified']), digits=6)
+        elif ch.get('respell') and ch['mod_us'] % 1000000 == 0:
+            d['modified'] = tsparse.fmt(ch['mod_us'], digits=0)
         return d
 
     def execute(self, plan, world):
@@ -325,6 +332,8 @@ class C05(Profile):
                 import datetime as dt
                 import pytz
                 tv = dt.datetime(1970, 1, 1, tzinfo=pytz.UTC) + dt.timedelta(microseconds=T)
+                if tf == 'datetime_offset':
+                    tv = tv.astimezone(dt.timezone(dt.timedelta(hours=5, minutes=30)))     # same instant, other UTC offset
             legal = U.prec_us(T, ver) > U.prec_us(old_us, ver)
             if T % 1000:
                 world.probe('explicit_modified_sub_ms')
@@ -474,6 +483,8 @@ class C05(Profile):
         if kind == 'revoke':
             if rjson.get('revoked') is not True:
                 raise Violation('exact-changes', 'C05.exact/revoked-flag', dict(result=rjson))
+            st['revoked'] = True
+        if rjson.get('revoked') is True:
             st['revoked'] = True
         world.log(op=kind, outcome='ok', rel=rel, new=rjson['modified'], old=hjson.get('modified'))
         # -- advance the chain
